@@ -13,6 +13,8 @@ RULE = ("downsample: EVERY (n, N) with 1 <= N <= n+2, n <= 400 (quick) / 700 (th
         "splitters / merge: exact-grid stream (3-4-5 step vectors, dyadic stamps, quarter-turn rotations, thresholds hit "
         "exactly, stationary stretches, jumps) compared exactly, random stream (epoch stamps, random geometry, long planar "
         "trajectories up to 1000 / 5000 poses) compared when every decision clears the float slack 2^-40 x magnitude; "
+        "histories of 2-4 operations on ONE object (reads of derived arrays, selectors, splitters with the object kept, merge), "
+        "every step compared with the model applied to the current abstract trajectory, both construction routes; "
         "merge ties compared as sets; non-trivial = something dropped/cut and something kept; distinct by content hash")
 
 SLACK = Fraction(1, 2 ** 40)
@@ -331,7 +333,84 @@ def gen_merge(ctx):
         yield {"kind": "merge", "stamps": stamps}
 
 
+READS = ["distances", "distances", "path_length", "speeds", "positions_xyz", "poses_se3", "orientations_quat_wxyz"]
+
+
+def gen_hist(ctx):
+    """histories on ONE object: reads of derived arrays, selectors, splitters (object kept), merge"""
+    r = ctx.rng
+
+    def op_read():
+        return {"op": "read", "what": r.choice(READS)}
+
+    def op_reduce(n, stamps):
+        c = r.random()
+        if c < 0.3:
+            return {"op": "downsample", "N": r.randint(1, n + 1)}
+        if c < 0.55:
+            return {"op": "motion", "d": float(r.choice([0, 5, 10, 13, 20, 26, 1000])), "a": float(r.choice([0, 45, 100, 200]))}
+        if c < 0.8:
+            s, e = r.choice(stamps + [None]), r.choice(stamps + [None])
+            if s is not None and e is not None and s > e and r.random() < 0.9:
+                s, e = e, s
+            return {"op": "crop", "s": s, "e": e}
+        return {"op": "ids", "mask": r.getrandbits(n + 2) | (1 << r.randrange(n))}
+
+    def op_split():
+        k = r.choice(["splitd", "splitd", "splitt", "splits"])
+        thr = {"splitd": r.choice([0, 5, 7, 10, 13, 26, 40]), "splitt": r.choice([0, 0.5, 1, 2, 3]),
+               "splits": r.choice([0, 2.5, 5, 10, 20, 52])}[k]
+        return {"op": k, "thr": float(thr)}
+
+    def op_merge(q):
+        m = r.randint(1, 5)
+        st, t = [], r.randint(-8, 20)
+        off = r.choice([0.125, 0.0625, 0.03125, 0.1875])
+        for _ in range(m):
+            st.append(t / q + off)              # never equal to a stamp of the object
+            t += r.randint(1, 6)
+        return {"op": "merge", "stamps": st, "pos": [[float(r.randint(-20, 60)) for _ in range(3)] for _ in range(m)],
+                "rots": [r.randrange(24) for _ in range(m)], "route": r.choice(["se3", "xyz"]), "first": r.random() < 0.5}
+
+    # corpus: read distances -> reduce -> split_distance_gaps (seeded change C11-3)
+    yield {"kind": "hist", "route": "se3", "inspect": False, "ts": [0.0, 1.0, 2.0, 3.0, 4.0, 5.0, 6.0, 7.0],
+           "steps": [[3, 4, 0], [3, 4, 0], [3, 4, 0], [3, 4, 0], [3, 4, 0], [24, 32, 0], [3, 4, 0]], "rots": [0] * 8,
+           "ops": [{"op": "read", "what": "distances"}, {"op": "crop", "s": 2.0, "e": None}, {"op": "splitd", "thr": 10.0}]}
+    for k in range(6000 if ctx.thorough else 1600):
+        n = r.randint(3, 14)
+        q = r.choice([1, 2, 4])
+        ts = grid_stamps(r, n, q)
+        steps = grid_steps(r, n, 1)
+        for _ in range(r.randint(0, 2)):
+            if steps:
+                j = r.randrange(len(steps))
+                steps[j] = [8 * x for x in r.choice(STEPS[:8])]       # a real gap
+        g, rots = r.randrange(24), []
+        for _ in range(n):
+            if r.random() < 0.3:
+                g = r.randrange(24)
+            rots.append(g)
+        if k % 5 < 2:
+            ops = [r.choice([op_read(), op_read(), op_split()]), op_reduce(n, ts), op_split()]
+            if r.random() < 0.4:
+                ops.append(r.choice([op_read(), op_reduce(n, ts), op_split(), op_merge(q)]))
+        else:
+            ops = []
+            for _ in range(r.randint(2, 4)):
+                c = r.random()
+                ops.append(op_read() if c < 0.25 else op_reduce(n, ts) if c < 0.6 else op_split() if c < 0.85 else op_merge(q))
+        offs = [0.125, 0.0625, 0.03125, 0.1875]
+        for o in ops:                                # stamps stay distinct over several merges
+            if o["op"] == "merge":
+                base = o["stamps"][0] % 0.25
+                new = offs.pop(0)
+                o["stamps"] = [t - base + new for t in o["stamps"]]
+        yield {"kind": "hist", "route": r.choice(["se3", "xyz"]), "inspect": r.random() < 0.5, "ts": ts, "steps": steps,
+               "rots": rots, "ops": ops}
+
+
 def gen_cases(ctx):
+    yield from gen_hist(ctx)
     yield from gen_motion(ctx)
     yield from gen_crop(ctx)
     yield from gen_split(ctx)
@@ -536,8 +615,151 @@ def impl_merge(case):
             "own_stamp": bool(own_stamp), "own_quat": bool(own_quat), "own_xyz": bool(own_xyz)}
 
 
+_QUAT = {}
+
+
+def g24_quat(g):
+    if g not in _QUAT:
+        from evo.core import transformations as tf
+        _QUAT[g] = np.array(tf.quaternion_from_matrix(se3(np.array(G24[g], dtype=float), [0.0, 0.0, 0.0])))
+    return _QUAT[g]
+
+
+def build_traj(poses, route):
+    """poses: list of (pos, g, stamp)"""
+    from evo.core.trajectory import PoseTrajectory3D
+    ts = np.array([p[2] for p in poses], dtype=float)
+    if route == "se3":
+        return PoseTrajectory3D(poses_se3=[se3(np.array(G24[p[1]], dtype=float), p[0]) for p in poses], timestamps=ts)
+    return PoseTrajectory3D(np.array([p[0] for p in poses], dtype=float), np.array([g24_quat(p[1]) for p in poses]), ts)
+
+
+def content_ok(tr, poses):
+    """position / orientation / timestamp of every pose of `tr` are those of the abstract poses"""
+    n = len(poses)
+    if not (tr.num_poses == n and len(tr.timestamps) == n):
+        return False
+    if n == 0:
+        return True
+    ok = np.array_equal(tr.timestamps, np.array([p[2] for p in poses], dtype=float))
+    ok = ok and np.array_equal(np.asarray(tr.positions_xyz).reshape(-1, 3), np.array([p[0] for p in poses], dtype=float))
+    ok = ok and len(tr.poses_se3) == n and all(
+        np.allclose(m[:3, :3], np.array(G24[p[1]], dtype=float), atol=1e-9) and np.array_equal(m[:3, 3], np.array(p[0], dtype=float))
+        for m, p in zip(tr.poses_se3, poses))
+    qs = np.asarray(tr.orientations_quat_wxyz).reshape(-1, 4)
+    ok = ok and len(qs) == n and all(
+        np.allclose(a, g24_quat(p[1]), atol=1e-9) or np.allclose(a, -g24_quat(p[1]), atol=1e-9) for a, p in zip(qs, poses))
+    return bool(ok)
+
+
+def sub_geometry(cur):
+    pos = [p[0] for p in cur]
+    steps = [[pos[k + 1][c] - pos[k][c] for c in range(3)] for k in range(len(pos) - 1)]
+    return {"steps": steps, "start": list(pos[0]) if pos else [0.0, 0.0, 0.0], "ts": [p[2] for p in cur],
+            "rots": [p[1] for p in cur], "mode": "grid"}
+
+
+def impl_hist(case):
+    """returns one record per executed op: {"k", "op", "sub" (equivalent fresh-object case) , "impl", ...}"""
+    from evo.core.trajectory import TrajectoryException
+    from evo.core import trajectory
+    from evo.core.filters import FilterException
+    pos = positions_of(case["steps"])
+    cur = [(pos[i], case["rots"][i], float(case["ts"][i])) for i in range(len(case["ts"]))]
+    tr = build_traj(cur, case["route"])
+    recs = []
+    for k, op in enumerate(case["ops"]):
+        if not cur:
+            break
+        name = op["op"]
+        rec = {"k": k, "op": name, "n_before": len(cur)}
+        recs.append(rec)
+        by_stamp = {p[2]: i for i, p in enumerate(cur)}
+        geo = sub_geometry(cur)
+        try:
+            if name == "read":
+                rec["op"] = "read " + op["what"]
+                getattr(tr, op["what"])
+                rec["unchanged"] = content_ok(tr, cur) if case["inspect"] else (
+                    tr.num_poses == len(cur) and np.array_equal(tr.timestamps, np.array(geo["ts"])))
+                continue
+            if name in ("splitd", "splitt", "splits"):
+                rec["sub"] = dict(geo, kind=name, thr=op["thr"])
+                try:
+                    parts = {"splitd": tr.split_distance_gaps, "splitt": tr.split_time_gaps,
+                             "splits": tr.split_speed_outliers}[name](op["thr"])
+                except TrajectoryException:
+                    rec["impl"] = {"err": "E_TRAJ"}
+                    continue
+                out, ok = [], True
+                for p in parts:
+                    ids = [by_stamp.get(float(t), -1) for t in p.timestamps]
+                    out.append(ids)
+                    ok = ok and all(i >= 0 for i in ids) and content_ok(p, [cur[i] for i in ids if i >= 0])
+                ok = ok and tr.num_poses == len(cur) and np.array_equal(tr.timestamps, np.array(geo["ts"]))
+                if case["inspect"]:
+                    ok = ok and content_ok(tr, cur)
+                rec["impl"] = {"parts": out, "content_matches_consecutive_runs": bool(ok), "total": sum(len(x) for x in out)}
+                continue
+            if name == "merge":
+                other = [(list(map(float, op["pos"][i])), op["rots"][i], float(op["stamps"][i])) for i in range(len(op["stamps"]))]
+                otr = build_traj(other, op["route"])
+                pair = [(tr, cur), (otr, other)] if op["first"] else [(otr, other), (tr, cur)]
+                conc = pair[0][1] + pair[1][1]
+                rec["sub"] = {"kind": "merge", "stamps": [[p[2] for p in pair[0][1]], [p[2] for p in pair[1][1]]]}
+                m = trajectory.merge([pair[0][0], pair[1][0]])
+                cmap = {p[2]: i for i, p in enumerate(conc)}
+                order = [cmap.get(float(t), -1) for t in m.timestamps]
+                valid = all(i >= 0 for i in order) and m.num_poses == len(order)
+                new = [conc[i] for i in order] if valid else []
+                together = valid and content_ok(m, new)
+                rec["impl"] = {"order": order, "qorder": order if together else [-1] * len(order),
+                               "stamps": [float(t) for t in m.timestamps], "n": len(conc), "valid": bool(valid),
+                               "own_stamp": bool(valid), "own_quat": bool(together), "own_xyz": bool(together)}
+                if valid:
+                    tr, cur = m, new
+                continue
+            # ---- selectors (reduce the object in place)
+            if name == "downsample":
+                rec["sub"] = {"kind": "ds", "n": len(cur), "N": op["N"], "rep": case["route"]}
+                call = lambda: tr.downsample(op["N"])  # noqa: E731
+            elif name == "motion":
+                rec["sub"] = dict(geo, kind="motion", d=op["d"], a=op["a"], degrees=True)
+                call = lambda: tr.motion_filter(op["d"], op["a"], True)  # noqa: E731
+            elif name == "crop":
+                rec["sub"] = {"kind": "crop", "ts": geo["ts"], "s": op["s"], "e": op["e"]}
+                call = lambda: tr.reduce_to_time_range(op["s"], op["e"])  # noqa: E731
+            else:
+                want = [i for i in range(len(cur)) if (op["mask"] >> i) & 1] or [0]
+                rec["want"] = want
+                call = lambda: tr.reduce_to_ids(np.array(want, dtype=int) if k % 2 else list(want))  # noqa: E731
+            try:
+                call()
+            except TrajectoryException:
+                rec["impl"] = {"err": "E_TRAJ"}
+                continue
+            except FilterException:
+                rec["impl"] = {"err": "E_FILTER", "unchanged": tr.num_poses == len(cur)}
+                continue
+            ids = [by_stamp.get(float(t), -1) for t in tr.timestamps]
+            new = [cur[i] for i in ids if i >= 0]
+            ok = all(i >= 0 for i in ids) and tr.num_poses == len(ids)
+            if case["inspect"] or k == len(case["ops"]) - 1:
+                ok = ok and content_ok(tr, new)
+            rec["impl"] = {"ids": ids, "together": bool(ok)}
+            cur = new
+        except Exception as e:  # anything that is not a documented refusal
+            rec["impl"] = {"raised": type(e).__name__ + ": " + str(e)[:80]}
+            rec.setdefault("sub", {"kind": "raised"})
+            break
+    final_ok = content_ok(tr, cur) if cur else True
+    return {"recs": recs, "final_ok": final_ok}
+
+
 def run_impl(case):
     k = case["kind"]
+    if k == "hist":
+        return impl_hist(case)
     if k == "ds":
         return impl_ds(case)
     if k == "motion":
@@ -943,13 +1165,99 @@ JUDGE = {"ds": judge_ds, "motion": judge_motion, "crop": judge_crop, "merge": ju
          "splitt": judge_split, "splitd": judge_split, "splits": judge_split}
 
 
+class StepCtx:
+    """routes the verdicts of a per-step judge to the history case (so that replay runs the whole history)"""
+    def __init__(self, ctx, case, k, op):
+        self.ctx, self.case, self.tag = ctx, case, f"history step {k} ({op}): "
+
+    def fail(self, _sub, clause, detail, tags=None):
+        self.ctx.fail(self.case, clause, self.tag + detail, tags)
+
+    def mismatch(self, _sub, what, impl=None, model=None):
+        self.ctx.mismatch(self.case, self.tag + what, impl, model)
+
+    def count(self, table, key, n=1):
+        self.ctx.count(table, "hist/" + key, n)
+
+    def record(self, *a, **k):
+        pass
+
+    @property
+    def skipped(self):
+        return self.ctx.skipped
+
+    @skipped.setter
+    def skipped(self, v):
+        self.ctx.skipped = v
+
+
+def hist_lines(impl):
+    return [model_line(rec["sub"]) for rec in impl["recs"] if rec.get("sub") and rec["sub"]["kind"] != "raised"]
+
+
+def judge_hist(ctx, case, impl, outs):
+    outs = list(outs)
+    dropped = False
+    names = []
+    for rec in impl["recs"]:
+        k, op = rec["k"], rec["op"]
+        names.append(op.split()[0])
+        sc = StepCtx(ctx, case, k, op)
+        if op.startswith("read"):
+            if not rec.get("unchanged", True):
+                sc.fail(None, "read-modifies", "reading a derived array changed the trajectory")
+            continue
+        sub = rec.get("sub")
+        if sub is not None and sub["kind"] == "raised":
+            judge_common(sc, case, rec["impl"])
+            continue
+        if "impl" not in rec:
+            continue
+        if op == "ids":
+            got = rec["impl"].get("ids")
+            if "raised" in rec["impl"] or "err" in rec["impl"]:
+                sc.fail(None, "operation-raised", f"reduce_to_ids raised {rec['impl']}")
+            else:
+                if got != rec["want"]:
+                    sc.fail(None, "reduce-to-ids", f"kept {got}, requested {rec['want']}")
+                if not rec["impl"]["together"]:
+                    sc.fail(None, "kept-together", "reduce_to_ids: pose/orientation/timestamp of a kept pose differ from the input pose")
+                dropped = dropped or len(rec["want"]) < rec["n_before"]
+            continue
+        out = outs.pop(0)
+        if out in ("BAD-OP", "BAD-MODEL"):
+            raise core.ToolError(f"driver rejected the request of history step {k} of {core.trim(case)}")
+        JUDGE[sub["kind"]](sc, sub, rec["impl"], out)
+        if "ids" in rec["impl"]:
+            dropped = dropped or len(rec["impl"]["ids"]) < rec["n_before"]
+    if not impl["final_ok"]:
+        ctx.fail(case, "kept-together", "after the history the object's positions / orientations / timestamps are not those of the kept poses")
+    ctx.count("dist", f"hist:{case['route']}:{len(case['ops'])}-ops")
+    for a, b, c in zip(names, names[1:], names[2:]):
+        if a in ("read", "splitd") and b in ("downsample", "motion", "crop", "ids") and c.startswith("split"):
+            ctx.count("branch", "hist:read-then-reduce-then-split")
+    if "merge" in names:
+        ctx.count("branch", "hist:merge-inside-history")
+    ctx.record(case, dropped)
+
+
 def evaluate(ctx, cases):
-    lines = [model_line(c) for c in cases]
+    plain = [c for c in cases if c["kind"] != "hist"]
+    hist = [c for c in cases if c["kind"] == "hist"]
+    lines = [model_line(c) for c in plain]
     with ThreadPoolExecutor(max_workers=1) as ex:
         fut = ex.submit(run_driver_parallel, lines)       # the driver works while evo is being called
-        impls = [run_impl(c) for c in cases]
+        himpls = [run_impl(c) for c in hist]
+        hlines = [hist_lines(i) for i in himpls]
+        impls = [run_impl(c) for c in plain]
         outs = fut.result()
-    for c, i, o in zip(cases, impls, outs):
+    flat = [l for ls in hlines for l in ls]
+    houts = run_driver_parallel(flat) if flat else []
+    at = 0
+    for c, i, ls in zip(hist, himpls, hlines):
+        judge_hist(ctx, c, i, houts[at: at + len(ls)])
+        at += len(ls)
+    for c, i, o in zip(plain, impls, outs):
         if o == "BAD-OP" or o == "BAD-MODEL":
             raise core.ToolError(f"driver rejected the request of case {core.trim(c)}: {o}")
         JUDGE[c["kind"]](ctx, c, i, o)
@@ -958,6 +1266,15 @@ def evaluate(ctx, cases):
 # ----------------------------------------------------------------------------- shrinking
 def shrink(case):
     k = case["kind"]
+    if k == "hist":
+        ops = case["ops"]
+        for i in range(len(ops)):
+            if len(ops) > 1:
+                yield dict(case, ops=ops[:i] + ops[i + 1:])
+        n = len(case["ts"])
+        if n > 2:
+            yield dict(case, ts=case["ts"][:-1], rots=case["rots"][:-1], steps=case["steps"][:-1])
+        return
     if k == "ds":
         n, N = case["n"], case["N"]
         for n2, N2 in ((n // 2, N // 2), (n - 1, N - 1), (n - 1, N), (n, N - 1)):
